@@ -10,7 +10,7 @@ namespace Gql.Validate.Rules
 open Gql Gql.Validate
 
 structure TopState where
-  fields : List (Name × Pos)
+  fields : List (Name × Name × Pos)      -- response name, field name, position
   inFrag : List Name
 
 abbrev TopJump := Selections → TopState → Option TopState
@@ -18,7 +18,8 @@ abbrev TopJump := Selections → TopState → Option TopState
 /-- one `walk(selectionSet)` invocation -/
 def topWalk (l : Links) (d : QueryDoc) (jump : TopJump) : Selections → TopState → Option TopState
   | .nil, st => some st
-  | .cons (.field _ nm _ _ _ p) rest, st => topWalk l d jump rest { st with fields := st.fields ++ [(nm, p)] }
+  | .cons (.field al nm _ _ _ p) rest, st =>
+    topWalk l d jump rest { st with fields := st.fields ++ [(if al != [] then al else nm, nm, p)] }
   | .cons (.inline _ _ sub _) rest, st =>
     match topWalk l d jump sub st with
     | none => none
@@ -37,9 +38,10 @@ def topLevel (l : Links) (d : QueryDoc) : Nat → TopJump
   | 0 => fun _ _ => none
   | n + 1 => fun sels st => topWalk l d (topLevel l d n) sels st
 
-def uniqByName : List (Name × Pos) → List Name → List (Name × Pos)
+/-- duplicates are removed by RESPONSE name -/
+def uniqByName : List (Name × Name × Pos) → List Name → List (Name × Name × Pos)
   | [], _ => []
-  | (n, p) :: rest, seen => if seen.contains n then uniqByName rest seen else (n, p) :: uniqByName rest (n :: seen)
+  | (r, n, p) :: rest, seen => if seen.contains r then uniqByName rest seen else (r, n, p) :: uniqByName rest (r :: seen)
 
 def isPrefixOf2 (pfx b : Bytes) : Bool := b.take pfx.length == pfx
 
@@ -54,10 +56,10 @@ def singleFieldSubscriptionsStep (s : SV) (d : QueryDoc) (e : Event) : Except By
         let fields := uniqByName st.fields []
         let name := if op.name != [] then str "Subscription " ++ quote op.name else str "Anonymous Subscription"
         let e1 := match fields with
-          | _ :: (_, p) :: _ => [errAt (name ++ str " must select only one top level field.") p]
+          | _ :: (_, _, p) :: _ => [errAt (name ++ str " must select only one top level field.") p]
           | _ => []
-        let e2 := (fields.filter fun f => isPrefixOf2 (str "__") f.1).map fun f =>
-          errAt (name ++ str " must not select an introspection top level field.") f.2
+        let e2 := (fields.filter fun f => isPrefixOf2 (str "__") f.2.1).map fun f =>
+          errAt (name ++ str " must not select an introspection top level field.") f.2.2
         .ok (e1 ++ e2)
   | _ => .ok []
 
